@@ -250,3 +250,53 @@ func withSuspend(cases []xferCase, d int) []xferCase {
 	}
 	return out
 }
+
+// famKS: exhaustive loss patterns.  Three streams (unreliable ordered, reliable ordered,
+// unreliable unordered / reliable unordered when !pr) write one-chunk messages round-robin, so
+// the i-th DATA TSN belongs to stream i%3; for every subset of at most maxLost TSN indices the
+// first transmission of exactly those TSNs is lost (no choice points: one execution each).
+func famKS(modes []modeSpec, maxLost int, pr bool, gaps []time.Duration, rounds int) []xferCase {
+	var out []xferCase
+	n := 3 * rounds
+	var subsets [][]int
+	var rec func(start int, cur []int)
+	rec = func(start int, cur []int) {
+		subsets = append(subsets, append([]int(nil), cur...))
+		if len(cur) == maxLost {
+			return
+		}
+		for i := start; i < n; i++ {
+			rec(i+1, append(cur, i))
+		}
+	}
+	rec(0, nil)
+	for _, mode := range modes {
+		for _, gap := range gaps {
+			for _, sub := range subsets {
+				mk := func(size int) []msgSpec {
+					var ms []msgSpec
+					for i := 0; i < rounds; i++ {
+						ms = append(ms, msgSpec{Size: size + i, PPI: 53})
+					}
+					return ms
+				}
+				s1 := streamSpec{SID: 1, From: 0, Msgs: mk(58)}
+				s3 := streamSpec{SID: 3, From: 0, Unordered: true, Msgs: mk(50)}
+				if pr {
+					s1.RelType, s1.RelVal = ReliabilityTypeRexmit, 0
+					s3.RelType, s3.RelVal = ReliabilityTypeRexmit, 0
+				}
+				spec := &xferSpec{
+					A: withBase(mode.A, 100, 0xFFFFFFFB, 4000), B: withBase(mode.B, 100, 50, 4000),
+					Streams:    []streamSpec{s1, {SID: 2, From: 0, Msgs: mk(64)}, s3},
+					Interleave: true,
+					WriteGap:   gap,
+					KillIdx:    sub,
+					KillN:      1,
+				}
+				out = append(out, xferCase{Name: fmt.Sprintf("KS/%s/pr%v/gap%v/lost%v", mode.Name, pr, gap, sub), K: 0, Spec: spec})
+			}
+		}
+	}
+	return out
+}
